@@ -1226,6 +1226,87 @@ def c33(run):
     run.sample([e for e in read_trace(t) if e.get('ev') == 'cli'][:3])
 
 
+CAPI_TARGET = os.path.join(os.path.dirname(CLI_TARGET), "target-capi")
+
+
+def c36(run):
+    run.cov["rule"] = ("behaviours of Doc.tla (puts / deletes / increments on a conflicted map register and on the elements of a "
+                       "list, inserts, merges between 2-3 replicas; exhaustive transition coverage for small depths) are turned "
+                       "into programs for a C driver (capi/driver.c) that performs them through the C ABI of automerge-c "
+                       "(AMcreate, AMmapPut*/Delete/Increment, AMlistPut*/Delete/Increment, AMcommit, AMmerge), reads results, "
+                       "items, byte spans and iterators (AMgetHeads, AMsave, AMkeys, AMmapGetAll, AMlistRange, AMlistGetAll, "
+                       "AMobjSize) after every step and frees results under three disciplines (at once, all at exit in reverse, "
+                       "every second one late); built with clang -fsanitize=address,undefined (+LeakSanitizer); every "
+                       "observation line (heads, the complete save() bytes, all values) must equal the line the Rust API "
+                       "produces for the same operations, and the sanitizers must stay silent; non-trivial = programs replayed")
+    from . import sh, BIN, build_harness
+    build_harness()
+    inc = os.path.join(run.work, "capi")
+    os.makedirs(inc, exist_ok=True)
+    rc, out, dt = sh("cargo build --offline -p automerge-c --target-dir %s 2>&1 | tail -3" % CAPI_TARGET, timeout=3000, cwd="/repo/rust",
+                     env={"CARGO_NET_OFFLINE": "true", "CBINDGEN_TARGET_DIR": inc})
+    lib = os.path.join(CAPI_TARGET, "debug", "libautomerge_core.a")
+    hdr = os.path.join(inc, "automerge.h")
+    if "Finished" not in out or not os.path.exists(lib):
+        raise ToolError("building automerge-c failed:\n" + out[-2000:])
+    if not os.path.exists(hdr):
+        # cbindgen only rewrites the header when the build script runs again: force it
+        sh("touch /repo/rust/automerge-c/build.rs", timeout=60)
+        rc, out, dt = sh("cargo build --offline -p automerge-c --target-dir %s 2>&1 | tail -3" % CAPI_TARGET, timeout=3000, cwd="/repo/rust",
+                         env={"CARGO_NET_OFFLINE": "true", "CBINDGEN_TARGET_DIR": inc})
+        if not os.path.exists(hdr):
+            raise ToolError("cbindgen did not produce automerge.h:\n" + out[-2000:])
+    sh("sed -E 's/A_M([^_]+)_/AM_\\1_/g; s/USIZE_/+8/g' %s > %s" % (hdr, os.path.join(inc, "am.h")), timeout=60)
+    drv = os.path.join(inc, "driver")
+    src = os.path.join(os.path.dirname(os.path.dirname(CLI_TARGET)), "capi", "driver.c")
+    rc, out, dt = sh(["clang", "-fsanitize=address,undefined", "-g", "-O1", "-I", inc, src, lib, "-lpthread", "-ldl", "-lm", "-o", drv],
+                     timeout=600, ok_codes=None)
+    if rc != 0:
+        raise ToolError("compiling the C driver failed:\n" + out[-3000:])
+    variants = [("1, 2", 3, True, 0), ("1, 2, 3", 6, True, 40)] if run.tier == "quick" else [("1, 2", 4, True, 0), ("1, 2, 3", 7, True, 400)]
+    total = 0
+    for vi, (reps, depth, withlist, num) in enumerate(variants):
+        exh = num <= 0
+        cfg = GEN_DOC_CFG % (reps, depth, '"k1"', "TRUE", "TRUE", "FALSE", "FALSE", "FALSE", "cp", "FALSE", "FALSE",
+                             "EmitAll" if exh else "Emit", "VIEW TransitionView\n" if exh else "")
+        behs, r = tlc_behaviours("Doc.tla", cfg, os.path.join(run.work, "gendoc"), {}, num, depth + 1, run.seed + vi,
+                                 exhaustive=exh, workers=4 if exh else 1)
+        run.add_states(r)
+        behs = sorted(set(behs))
+        if run.tier == "quick":
+            behs = behs[:3000]
+        bp = os.path.join(run.work, f"beh-capi-{vi}.ndjson")
+        with open(bp, "w") as f:
+            f.write("\n".join(behs) + "\n")
+        prog, exp, got, err = [os.path.join(run.work, f"capi-{vi}.{x}") for x in ("prog", "exp", "got", "err")]
+        rc, out, dt = sh([os.path.join(BIN, "replay"), "capi", bp, prog, exp], timeout=3000, ok_codes=None)
+        if rc != 0:
+            raise ToolError("replay capi failed:\n" + out[-2000:])
+        rc, out, dt = sh("%s < %s > %s 2> %s" % (drv, prog, got, err), timeout=3000, ok_codes=None,
+                         env={"ASAN_OPTIONS": "detect_leaks=1:abort_on_error=0", "UBSAN_OPTIONS": "print_stacktrace=1"})
+        errtxt = open(err).read()
+        g = open(got).read().splitlines()
+        e = open(exp).read().splitlines()
+        total += len(behs)
+        run.cov["evaluations"] += len(e)
+        if rc != 0 or errtxt.strip():
+            run.violation({"stderr": errtxt[:4000], "exit": rc, "program": prog},
+                          "C driver under AddressSanitizer/UBSan/LeakSanitizer: exit %d, report: %s" % (rc, errtxt[:300].replace("\n", " ")),
+                          {"checks": ["sanitizer"], "event": {}})
+        if g != e:
+            k = next((i for i in range(min(len(g), len(e))) if g[i] != e[i]), min(len(g), len(e)))
+            run.violation({"line": k, "c_api": g[k][:2000] if k < len(g) else "<missing>", "rust_api": e[k][:2000] if k < len(e) else "<missing>",
+                           "program": prog},
+                          "C API and Rust API disagree at observation line %d of %s" % (k, os.path.basename(prog)),
+                          {"checks": ["capi-equals-rust"], "event": {}})
+        for i in range(len(behs)):
+            run.nontrivial(("capi", vi, i))
+        if behs:
+            run.sample({"program_head": open(prog).read().splitlines()[:12]})
+    run.cov["traces_validated_against_impl"] += total
+    run.step("capi", programs=total)
+
+
 def replay(run, path):
     """re-validate a recorded violating scenario"""
     from . import tlc_trace
@@ -1254,6 +1335,7 @@ REG = {
     "C34": ("model_checking", c34),
     "C32": ("model_checking", c32),
     "C33": ("exploration", c33),
+    "C36": ("exploration", c36),
     "C31": ("model_checking", c31),
     "C27": ("model_checking", c27),
     "C15": ("fault_enumeration", c15),
